@@ -16,13 +16,16 @@ import (
 
 // acrhApproved asks the real middleware: configuration with exactly this discrete header set,
 // debug off, allowed origin, safelisted ACRM; approved <=> ok status (and ACAH reflecting the lines).
+var acrhBuilds int
+
 func acrhHandler(names []string) http.Handler {
-	m, err := cors.NewMiddleware(cors.Config{Origins: []string{"https://example.com"}, RequestHeaders: names})
-	noise(m)
-	if err != nil {
-		fatal("NewMiddleware(%q): %v", names, err)
+	acrhBuilds++
+	m := buildVia(cors.Config{Origins: []string{"https://example.com"}, RequestHeaders: names}, acrhBuilds)
+	if m == nil {
+		fatal("configuration with RequestHeaders %q rejected", names)
 	}
-	return m.Wrap(okHandler)
+	noise(m)
+	return handlerFor(m, okHandler)
 }
 
 func acrhApproved(h http.Handler, lines []string) (approved bool, reflected bool) {
